@@ -122,10 +122,12 @@ def gen_pipeline_stages():
     guarded = []
     for pos in inserts:
         k = pl.rfind("if ", 0, pos)
-        cond = pl[k:pl.find("{", k)] if k >= 0 else ""
-        if "cacheable()" not in cond:
-            raise ExtractError("pipeline.rs: a cache insertion is not under a cacheable() test")
-        guarded.append(len(re.findall(r"\bcacheable\(\)", cond)) >= 2)
+        if k < 0 or pos - k > 400:
+            raise ExtractError("pipeline.rs: a cache insertion is not under an `if`")
+        before = pl[max(0, pos - 700):pos]
+        if not re.search(r"\bstage\s*\.\s*cacheable\(\)", before):
+            raise ExtractError("pipeline.rs: a cache insertion is not under a stage.cacheable() test")
+        guarded.append(bool(re.search(r"\b(?!stage\b)[a-z_]+\s*\.\s*cacheable\(\)", before)))
     oc = re.search(r"fn\s+cacheable\s*\(&self\)\s*->\s*bool\s*\{\s*(?:!\s*matches!\(\s*self\s*,\s*(?:StageOutput|Self)::Compiled\s*\([^)]*\)\s*\)"
                    r"|match\s+self\s*\{[^}]*Compiled\s*\([^)]*\)\s*=>\s*false[^}]*_\s*=>\s*true[^}]*\})\s*\}", ty)
     if all(guarded) and oc:
